@@ -321,6 +321,12 @@ int _vnacal_new_add_common(vnacal_new_add_arguments_t vnaa)
     /* address where next equation should be linked */
     vnacal_new_equation_t **vnepp_anchor = &ncep_head;
 
+    /* unknown parameter registrations to undo if the standard is rejected */
+    vnacal_new_parameter_t **const old_unknown_anchor =
+	vnp->vn_unknown_parameter_anchor;
+    const int old_unknown_parameters = vnp->vn_unknown_parameters;
+    const int old_correlated_parameters = vnp->vn_correlated_parameters;
+
     /* return code */
     int rc = -1;
 
@@ -1013,6 +1019,10 @@ out:
 	free((void *)vnep);
     }
     _vnacal_new_free_measurement(vnmp);
+    if (rc != 0) {
+	_vnacal_new_rollback_parameters(vnp, old_unknown_anchor,
+		old_unknown_parameters, old_correlated_parameters);
+    }
 
     return rc;
 }
